@@ -175,4 +175,47 @@ theorem bbin_eq_rbin {p : Pip22} {s : Int} (hf : 0 < p.floor)
     unfold bbin rbin
     rw [e]
 
+/-! ## the bin-level computation only looks at the oracle at its own bin -/
+
+theorem fracPowR_congr {R R' : Int → Out} {d e : Int} {den : Nat} (h : R d = R' d) :
+    fracPowR R d e den = fracPowR R' d e den := by
+  unfold fracPowR; rw [h]
+
+theorem coinsOfBin_congr {R R' : Int → Out} {p : Pip22} {b m c : Int} (h : R (ofInt b) = R' (ofInt b)) :
+    coinsOfBin R p b m c = coinsOfBin R' p b m c := by
+  unfold coinsOfBin; rw [fracPowR_congr h]
+
+theorem fracPowR_no_timeout {R : Int → Out} {d e : Int} {den : Nat} (h : R d ≠ .timeout) :
+    fracPowR R d e den ≠ .timeout := by
+  unfold fracPowR
+  split
+  · simp
+  · split
+    · simp
+    · split
+      · simp
+      · split
+        · simp
+        · cases hr : R d with
+          | timeout => exact absurd hr h
+          | err => simp
+          | val c => simp only; split <;> simp
+
+theorem coinsOfBin_no_timeout {R : Int → Out} {p : Pip22} {b m c : Int} (h : R (ofInt b) ≠ .timeout) :
+    coinsOfBin R p b m c ≠ .timeout := by
+  unfold coinsOfBin
+  have := fracPowR_no_timeout (R := R) (d := ofInt b) (e := p.exponent) (den := pip22Den) h
+  cases hf : fracPowR R (ofInt b) p.exponent pip22Den with
+  | timeout => exact absurd hf this
+  | err => simp
+  | val fp =>
+    simp only
+    split
+    · simp
+    · split
+      · simp
+      · split
+        · simp
+        · split <;> simp
+
 end BigDec
